@@ -868,7 +868,7 @@ impl<'a, 'b, E, F: Filter, C, T, R, W: Filter + ?Sized, CL: CaptureLevel + ?Size
             .map(|lvl| (KEY_LVL, lvl));
 
         FirstDefined(self.when, self.rt.filter())
-            .matches(evt.map_props(|props| props.and_props(&lvl_prop)))
+            .matches(evt.map_props(|props| (&lvl_prop).and_props(props)))
     }
 }
 
